@@ -30,4 +30,10 @@ def collect (j : Json) : Except String Json := do
     | .tooMany => jobj [("kind", "tooMany")]
   return jobj [("model", out)]
 
+def handle (op : String) (j : Json) : Except String Json :=
+  match op with
+  | "c01.iter" => iter j
+  | "c01.collect" => collect j
+  | _ => throw s!"unknown op {op}"
+
 end Driver.C01
